@@ -625,6 +625,35 @@ fn bespoke_spellings(ctx: &Ctx, runs: &AtomicU64) {
             }
         }
     }
+    // every built-in: an invocation rejected for an unknown option has no effect, not even through
+    // the redirections it carries (they last as long as the command, as for any other command)
+    {
+        let names: Vec<&'static str> = yash_builtin::iter::<VS>().map(|(n, _)| n).filter(|n| !matches!(*n, "exit" | "return" | "break" | "continue")).collect();
+        for name in names {
+            for line in [format!("command {name} --no-such-option-zz 7>/tmp/w"), format!("command {name} -Z >/tmp/w2 3<&0"), format!("command {name} --no-such-option-zz=1 2>>/tmp/w3 5>&1")] {
+                let script = format!("{}snap before\n{line}\np st\nsnap after\n", u.prelude);
+                let mut setup = Setup::script(&script);
+                setup.dirs.push("/tmp/d".into());
+                setup.cwd = Some("/".into());
+                let r = vsh::run_once(&setup, &Default::default());
+                runs.fetch_add(1, Relaxed);
+                let tr = r.all_trace();
+                let sec = |tag: &str| tr.iter().find(|t| t.starts_with(&format!("snap {tag} "))).map(|s| parse_snapshot(&s[format!("snap {tag} ").len()..]));
+                let (Some(b), Some(a)) = (sec("before"), sec("after")) else { continue };
+                let status = tr.iter().find(|t| t.starts_with("st:")).cloned().unwrap_or_default();
+                // (the diagnostic may have gone to a redirected standard error)
+                let rejected = status != "st:0";
+                if !rejected {
+                    continue;
+                }
+                let same = b.iter().all(|(k, v)| k == "status" || if k == "fds" { a.get(k).map(|x| strip_offsets(x)) == Some(strip_offsets(v)) } else { a.get(k) == Some(v) });
+                if !same {
+                    let diff: Vec<String> = b.iter().filter(|(k, v)| *k != "status" && a.get(*k) != Some(*v)).map(|(k, v)| format!("{k}: {v:?} -> {:?}", a.get(k))).collect();
+                    ctx.violation("c20:rejected-invocation-has-an-effect", &format!("`{line}` is rejected ({status}) but changes the shell: {diff:?}"), json!({"line": line, "script": script}));
+                }
+            }
+        }
+    }
     for bad in [
         "set -Z", "set -o nosuchoption", "set --nosuch", "set -o", "kill -s NOSUCHSIG $$", "kill -s", "kill", "set --no",
         // letters and digits outside ASCII are alphanumeric too: these are not spellings of errexit / xtrace
